@@ -852,8 +852,14 @@ func (fr *FnRun) collectLocals() {
 	for _, b := range fr.fn.Blocks {
 		for _, in := range b.Instrs {
 			d, ok := in.(*ssa.DebugRef)
-			if !ok || d.IsAddr {
+			if !ok {
 				continue
+			}
+			if d.IsAddr {
+				// address-taken local: the name denotes its cell
+				if _, isAlloc := d.X.(*ssa.Alloc); !isAlloc {
+					continue
+				}
 			}
 			id, ok := d.Expr.(*ast.Ident)
 			if !ok {
